@@ -100,7 +100,7 @@ func yieldEverywhere(pkgPath, rel string) bool {
 	case modPath + "/pkg/gi", modPath + "/pkg/generic":
 		return !strings.HasSuffix(rel, "/logger.go") && !strings.HasSuffix(rel, "/pkg.go")
 	case modPath:
-		return rel == "package.go" || rel == "scope.go" || rel == "hook.go" || rel == "funcinfo.go"
+		return rel == "package.go" || rel == "scope.go" || rel == "hook.go" || rel == "funcinfo.go" || rel == "printer.go"
 	}
 	return false
 }
